@@ -324,6 +324,39 @@ def pow_special_cases(rnd, n, prefix="PW"):
     return out
 
 
+def special_value_cases(rnd, n, prefix="SV"):
+    """Float functions on the special values the standard lists (signed zeros, infinities, NaN, +-1, large / tiny
+    magnitudes), all PAIRS for the binary ones."""
+    out = []
+    sv = [0.0, -0.0, float("inf"), float("-inf"), float("nan"), 1.0, -1.0, 2.5, -2.5, 1e-30, 1e30]
+    binf = ["logaddexp", "atan2", "divide", "multiply", "add", "subtract", "less", "equal", "pow"]
+    unf = ["expm1", "log1p", "exp", "log", "sqrt", "sign", "abs", "floor", "ceil", "trunc", "round", "isfinite", "isinf", "isnan", "negative", "square"]
+    i = 0
+    while len(out) < n:
+        d = rnd.choice(["float32", "float64"])
+        i += 1
+        if i % 2:
+            f = rnd.choice(binf)
+            xs = [rnd.choice(sv) for _ in range(12)]
+            ys = [rnd.choice(sv) for _ in range(12)]
+            # make sure the equal-operand diagonal is present (inf with inf, -0 with -0, ...)
+            xs[:6] = [float("inf"), float("-inf"), -0.0, 0.0, float("inf"), float("nan")]
+            ys[:6] = [float("inf"), float("-inf"), -0.0, -0.0, float("-inf"), 1.0]
+            x = {"dtype": d, "shape": [12], "data": [ops.fhex(ops.f32(v) if d == "float32" and v == v and abs(v) != float("inf") else v) for v in xs]}
+            y = {"dtype": d, "shape": [12], "data": [ops.fhex(ops.f32(v) if d == "float32" and v == v and abs(v) != float("inf") else v) for v in ys]}
+            meta = {"func": f, "dtype": d, "dclass": dclass(d), "style": "special-values"}
+            out.append(mkcase(f"{prefix}-{len(out)}-{f}", {"x": x, "y": y}, f"out = ndx.{f}(x, y)", f"out = {np_call(f, ['x', 'y'])}", meta, rnd, ew_tol(f, d), symbolic=False))
+        else:
+            f = rnd.choice(unf)
+            xs = [rnd.choice(sv) for _ in range(11)]
+            xs[:5] = [float("inf"), float("-inf"), -0.0, 0.0, float("nan")]
+            x = {"dtype": d, "shape": [11], "data": [ops.fhex(ops.f32(v) if d == "float32" and v == v and abs(v) != float("inf") else v) for v in xs]}
+            meta = {"func": f, "dtype": d, "dclass": dclass(d), "style": "special-values"}
+            orc = f"out = {np_call(f, ['x'])}" if f != "round" else "out = np.round(x)"
+            out.append(mkcase(f"{prefix}-{len(out)}-{f}", {"x": x}, f"out = ndx.{f}(x)", orc, meta, rnd, ew_tol(f, d), symbolic=False))
+    return out
+
+
 def scalar_operand_cases(rnd, n, prefix="SC"):
     """Binary element-wise calls with a Python scalar operand (both orders, functions and operators), including signed
     zeros and Python-equal scalars of different types; a third of the cases use two different scalars one after the
@@ -623,6 +656,13 @@ def sorting_cases(rnd, n, prefix="S", max_len=40, dtypes=None):
             csh = csh[rnd.randint(0, len(csh)):]
             ins = {"c": ops.tensor(rnd, "bool", csh), "x": vec(a, "small"), "y": vec(bsh, "small")}
             out.append(mkcase(cid, ins, "out = ndx.where(c, x, y)", "out = np.where(c, x, y)", meta, rnd))
+    # nonzero on values of tiny magnitude (non-zero is non-zero in the array's own precision)
+    for k in range(max(3, n // 40)):
+        vals = [rnd.choice(["0x1.0p-200", "0x0.0p+0", "-0x1.0p-300", "0x0.0000000000001p-1022", "0x1.8p+1", "-0x0.0p+0"]) for _ in range(6)]
+        x = {"dtype": "float64", "shape": rnd.choice([[6], [2, 3], [3, 2]]), "data": vals}
+        meta = {"func": "nonzero", "dtype": "float64", "dclass": "float", "style": "tiny"}
+        out.append(mkcase(f"{prefix}-tiny-{k}", {"x": x}, "out = list(ndx.nonzero(x))", "out = [a.astype(np.int64) for a in np.nonzero(x)]", meta, rnd, symbolic=False))
+
     return out
 
 
@@ -748,6 +788,21 @@ def getitem_cases(rnd, n, prefix="G", max_rank=3, dtypes=GETITEM_DTYPES, exhaust
                 continue
             out.append(mkcase(cid, {"x": x}, f"out = x[{src}]", "raise IndexError('malformed')",
                               {"func": "getitem", "form": "malformed-" + bad, "dtype": d, "dclass": dclass(d)}, rnd, raise_family=["IE", "TE"]))
+    # Python-equal indices of different types, one after the other (1 == 1.0 == True): each is judged on its own
+    for k in range(max(6, n // 25)):
+        d = rnd.choice(["int64", "float32", "utf8", "nint32"])
+        x = ops.tensor(rnd, d, [2, 3], style="token")
+        first, second, orc = rnd.choice([
+            ("x[1, 0]", "x[1.0, 0.0]", "raise IndexError('float index')"), ("x[True, True]", "x[1, 1]", "out = lay(lambda a_: a_[1, 1], x)"),
+            ("x[1, 2]", "x[1.0, 2]", "raise IndexError('float index')"),
+            ("x[(np.int64(1), np.int64(0))]", "x[1, 0]", "out = lay(lambda a_: a_[1, 0], x)"), ("x[0, 0]", "x[0.0, 0]", "raise IndexError('float index')")])
+        impl = f"\ntry:\n    u_ = {first}\nexcept Exception:\n    pass\nout = {second}"
+        meta = {"func": "getitem", "form": "equal-index-history", "dtype": d, "dclass": dclass(d)}
+        if orc.startswith("raise"):
+            out.append(mkcase(f"{prefix}-eqh-{k}", {"x": x}, impl, orc, dict(meta, form="malformed-type"), rnd, raise_family=["IE", "TE"], symbolic=False))
+        else:
+            out.append(mkcase(f"{prefix}-eqh-{k}", {"x": x}, impl, orc, meta, rnd, symbolic=False))
+
     return out
 
 
@@ -1030,6 +1085,15 @@ def cast_cases(rnd, n, prefix="K"):
             meta = dict(meta, dst="n" + a, dst_class=dclass("n" + a))
         c = mkcase(f"{prefix}-special-{k}", {"x": x}, form, orc, meta, rnd, (1e-7, 0.0) if "float32" in (a, b) else (0.0, 0.0), symbolic=False)
         c["lazy_subsets"] = [{"names": ["x"]}]
+        out.append(c)
+    # subnormal values: non-zero is non-zero (the expectation is a literal: nothing in this process may round it)
+    for k in range(max(3, n // 40)):
+        vals = [rnd.choice(["0x0.0000000000001p-1022", "0x0.8p-1022", "-0x0.0000000000001p-1022", "0x0.0p+0", "0x1.0p-1022", "-0x0.0p+0"]) for _ in range(4)]
+        x = {"dtype": "float64", "shape": [4], "data": vals}
+        exp = [v not in ("0x0.0p+0", "-0x0.0p+0") for v in vals]
+        meta = {"func": "astype", "src": "float64", "dst": "bool", "dtype": "float64", "dclass": "float", "dst_class": "bool", "history": "subnormal"}
+        c = mkcase(f"{prefix}-subnormal-{k}", {"x": x}, "w_ = ndx.asarray(np.array([1.5])) * 2; out = ndx.astype(x, ndx.bool)", f"out = np.array({exp!r})", meta, rnd, symbolic=False)
+        c["lazy_subsets"] = []
         out.append(c)
     # chains of casts: every link rounds / truncates (a chain is not the cast to the last dtype)
     chains = [("float64", "float32", "float64", [0.1, 1 / 3, 100.7, -2.3, 1.0e-3, 16777217.0]), ("float64", "int32", "float64", [2.5, -2.5, 100.75, 0.99, -0.5]),
